@@ -121,7 +121,7 @@ fn bare_parent_modules() -> Vec<(String, Vec<String>, String, Vec<String>)> {
 /// nested structs of the OTHER kind than the root (`#[child_parents(1: N as {})]` under a tuple root, `p: N as ()` under a
 /// named root), with and without a ghost addressed into the nested struct (seed C17-07: the root's hint used for a nested
 /// level).  8 fixed layouts.
-fn mixed_kind_modules() -> Vec<(String, Vec<String>, Vec<String>)> {
+pub fn mixed_kind_modules() -> Vec<(String, Vec<String>, Vec<String>)> {
     let mut v = vec![];
     let d = "#[derive(Clone, Debug, PartialEq, Default)]";
     for (root_tuple, cross) in [(true, false), (false, false), (true, true), (false, true)] {
@@ -190,6 +190,92 @@ fn mixed_kind_modules() -> Vec<(String, Vec<String>, Vec<String>)> {
     v
 }
 
+/// two nesting levels of independently chosen kind (seed C07-09): root T, nested N (in T) and M (in N) are each a named
+/// or a tuple struct, the deriving struct is of the root's kind or of the other one (root hint), one member per struct
+/// in every declaration order; every nested struct carries its explicit kind hint in #[child_parents].  Tuple structs
+/// of the counterpart list their fields in the order the flat struct reaches them (so KF-C03-01 is not involved).
+pub fn mixed_kind2_modules() -> Vec<(String, Vec<String>, Vec<String>)> {
+    let mut v = vec![];
+    let d = "#[derive(Clone, Debug, PartialEq, Default)]";
+    let perms: [[usize; 3]; 6] = [[0, 1, 2], [0, 2, 1], [1, 0, 2], [1, 2, 0], [2, 0, 1], [2, 1, 0]];
+    for kinds in 0..8u32 {
+        let (k0, k1, k2) = (kinds & 1 != 0, kinds & 2 != 0, kinds & 4 != 0); // true = tuple
+        for cross in [false, true] {
+            let s_tuple = k0 != cross;
+            for perm in perms {
+                // perm[i] = which member (0 = a root, 1 = b in N, 2 = c in M) is declared i-th
+                let pos = |m: usize| perm.iter().position(|x| *x == m).unwrap();
+                let a_first = pos(0) < pos(1).min(pos(2));
+                let x_first = pos(1) < pos(2);
+                let hint = |t: bool| if t { "as ()" } else { "as {}" };
+                // designators
+                let (a_tgt, n_seg) = if k0 { (if a_first { "0" } else { "1" }, if a_first { "1" } else { "0" }) } else { ("a", "p") };
+                let (x_tgt, m_seg) = if k1 { (if x_first { "0" } else { "1" }, if x_first { "1" } else { "0" }) } else { ("x", "q") };
+                let y_tgt = if k2 { "0" } else { "y" };
+                let p1 = n_seg.to_string();
+                let p2 = format!("{} .{}", n_seg, m_seg);
+                let mut m = String::from("#![allow(unused, non_camel_case_types, clippy::all)]\nuse crate::common::*;\nuse o2o::traits::*;\n");
+                let lit = |ty: &str, tuple: bool, first: (&str, String), second: (&str, String), swap: bool| {
+                    let (f, g) = if swap { (second, first) } else { (first, second) };
+                    if tuple { format!("{}({}, {})", ty, f.1, g.1) } else { format!("{} {{ {}: {}, {}: {} }}", ty, f.0, f.1, g.0, g.1) }
+                };
+                let def = |ty: &str, tuple: bool, first: (&str, &str), second: (&str, &str), swap: bool| {
+                    let (f, g) = if swap { (second, first) } else { (first, second) };
+                    if tuple { format!("{d} pub struct {}(pub {}, pub {});\n", ty, f.1, g.1) } else { format!("{d} pub struct {} {{ pub {}: {}, pub {}: {} }}\n", ty, f.0, f.1, g.0, g.1) }
+                };
+                m.push_str(&if k2 { format!("{d} pub struct M(pub i32);\n") } else { format!("{d} pub struct M {{ pub y: i32 }}\n") });
+                m.push_str(&def("N", k1, ("x", "i32"), ("q", "M"), !x_first));
+                for t in ["T", "Tf"] {
+                    m.push_str(&def(t, k0, ("a", "i32"), ("p", "N"), !a_first));
+                }
+                let m_lit = |y: i64| if k2 { format!("M({})", y) } else { format!("M {{ y: {} }}", y) };
+                let t_lit = |t: &str, a: i64, x: i64, y: i64| lit(t, k0, ("a", a.to_string()), ("p", lit("N", k1, ("x", x.to_string()), ("q", m_lit(y)), !x_first)), !a_first);
+                let h = if cross { format!(" {}", hint(k0)) } else { String::new() };
+                let mut item = format!("#[map(T{h})]\n#[into_existing(T{h})]\n#[try_map(Tf{h}, Er)]\n#[try_into_existing(Tf{h}, Er)]\n");
+                item.push_str(&format!("#[child_parents({}: N {}, {}: M {})]\n", p1, hint(k1), p2, hint(k2)));
+                let decl = |mi: usize| {
+                    let (nm, attrs) = match mi {
+                        0 => ("a", format!("#[map({})]", a_tgt)),
+                        1 => ("b", format!("#[child({})] #[map({})]", p1, x_tgt)),
+                        _ => ("c", format!("#[child({})] #[map({})]", p2, y_tgt)),
+                    };
+                    if s_tuple { format!("{} i32", attrs) } else { format!("{} pub {}: i32", attrs, nm) }
+                };
+                let members = perm.iter().map(|mi| decl(*mi)).collect::<Vec<_>>().join(", ");
+                item.push_str(&if s_tuple { format!("pub struct S({});\n", members) } else { format!("pub struct S {{ {} }}\n", members) });
+                m.push_str(&format!("{d}\n#[derive(o2o::o2o)]\n{}", item));
+                let s_lit = |vals: [i64; 3]| {
+                    if s_tuple {
+                        format!("S({})", perm.iter().map(|mi| vals[*mi].to_string()).collect::<Vec<_>>().join(", "))
+                    } else {
+                        format!("S {{ a: {}, b: {}, c: {} }}", vals[0], vals[1], vals[2])
+                    }
+                };
+                m.push_str("pub fn run(r: &mut Rec) {\n");
+                for (tn, fallible) in [("T", false), ("Tf", true)] {
+                    let f = if fallible { "try_" } else { "" };
+                    let wrap = |e: String| if fallible { format!("Ok::<_, Er>({})", e) } else { e };
+                    let tv = t_lit(tn, 10, 20, 30);
+                    let es = wrap(s_lit([10, 20, 30]));
+                    let et = t_lit(tn, 1, 2, 3);
+                    let pre = t_lit(tn, 900, 901, 902);
+                    if fallible {
+                        m.push_str(&format!("  {{ let t = {tv}; r.eq(\"{f}from_owned\", &<S as TryFrom<{tn}>>::try_from(t.clone()), &{es}); r.eq(\"{f}from_ref\", &<S as TryFrom<&{tn}>>::try_from(&t), &{es}); }}\n"));
+                        m.push_str(&format!("  {{ let s = {sl}; r.eq(\"{f}owned_into\", &<S as TryInto<{tn}>>::try_into(s.clone()), &{e}); r.eq(\"{f}ref_into\", &<&S as TryInto<{tn}>>::try_into(&s), &{e}); let mut o1 = {pre}; let r1 = <S as TryIntoExisting<{tn}>>::try_into_existing(s.clone(), &mut o1); r.eq(\"{f}owned_into_existing\", &r1.map(|_| o1), &{e}); let mut o2 = {pre}; let r2 = <&S as TryIntoExisting<{tn}>>::try_into_existing(&s, &mut o2); r.eq(\"{f}ref_into_existing\", &r2.map(|_| o2), &{e}); }}\n", sl = s_lit([1, 2, 3]), e = wrap(et.clone())));
+                    } else {
+                        m.push_str(&format!("  {{ let t = {tv}; r.eq(\"from_owned\", &<S as From<{tn}>>::from(t.clone()), &{es}); r.eq(\"from_ref\", &<S as From<&{tn}>>::from(&t), &{es}); }}\n"));
+                        m.push_str(&format!("  {{ let s = {sl}; r.eq(\"owned_into\", &<S as Into<{tn}>>::into(s.clone()), &{et}); r.eq(\"ref_into\", &<&S as Into<{tn}>>::into(&s), &{et}); let mut o1 = {pre}; <S as IntoExisting<{tn}>>::into_existing(s.clone(), &mut o1); r.eq(\"owned_into_existing\", &o1, &{et}); let mut o2 = {pre}; <&S as IntoExisting<{tn}>>::into_existing(&s, &mut o2); r.eq(\"ref_into_existing\", &o2, &{et}); }}\n", sl = s_lit([1, 2, 3])));
+                    }
+                }
+                m.push_str("}\n");
+                let kn = |t: bool| if t { "tuple" } else { "named" };
+                v.push((m, vec![item], vec!["mixed-kind-2".to_string(), format!("kinds={}/{}/{}", kn(k0), kn(k1), kn(k2)), format!("cross={}", cross), format!("order={:?}", perm)]));
+            }
+        }
+    }
+    v
+}
+
 pub fn collect(tier: &str, caps: &Caps, rep: &Report) -> Vec<BItem> {
     let items: Mutex<Vec<BItem>> = Mutex::new(vec![]);
     let (co, cb) = child_opts(tier);
@@ -246,6 +332,12 @@ pub fn collect(tier: &str, caps: &Caps, rep: &Report) -> Vec<BItem> {
         v.push(BItem { space: "mixed-kind".into(), choices: vec![i as u32], tags, inputs, module, nontrivial: true });
     }
     rep.add_stats("mixed-kind", "full (16 fixed layouts)", &crate::explore::ExploreStats { leaves: 16, transitions: 16, ..Default::default() });
+    let mk2 = mixed_kind2_modules();
+    let n2 = mk2.len() as u64;
+    for (i, (module, inputs, tags)) in mk2.into_iter().enumerate() {
+        v.push(BItem { space: "mixed-kind-2".into(), choices: vec![i as u32], tags, inputs, module, nontrivial: true });
+    }
+    rep.add_stats("mixed-kind-2", "full (8 kind triples x 2 deriving kinds x 6 member orders)", &crate::explore::ExploreStats { leaves: n2, transitions: n2, ..Default::default() });
     v
 }
 
@@ -293,6 +385,7 @@ pub fn replay(f: &Failure) -> i32 {
                 }
                 found
             }
+            "mixed-kind-2" => mixed_kind2_modules().into_iter().enumerate().find(|(i, _)| vec![*i as u32] == f.choices).map(|(_, (module, inputs, tags))| BItem { space: f.space.clone(), choices: f.choices.clone(), tags, inputs, module, nontrivial: true }),
             "mixed-kind" => mixed_kind_modules().into_iter().enumerate().find(|(i, _)| vec![*i as u32] == f.choices).map(|(_, (module, inputs, tags))| BItem { space: f.space.clone(), choices: f.choices.clone(), tags, inputs, module, nontrivial: true }),
             _ => bare_parent_modules().into_iter().enumerate().find(|(i, _)| vec![*i as u32] == f.choices).map(|(_, (module, inputs, _, tags))| BItem { space: f.space.clone(), choices: f.choices.clone(), tags, inputs, module, nontrivial: true }),
         };
